@@ -3,3 +3,4 @@ pub mod cupref;
 pub mod engine;
 pub mod props;
 pub mod tape;
+pub mod urlref;
